@@ -685,6 +685,7 @@ func (trans *BinOpTransform) computeMatchResult(primaryGroups *GroupLocs, second
 	var rVal float64
 	var keep bool
 	var pTime, sTime int64
+	var pEnd int
 	var pChunk Chunk
 	var pLoc *Loc
 	preOutSize := trans.outputChunk.Len()
@@ -695,10 +696,12 @@ func (trans *BinOpTransform) computeMatchResult(primaryGroups *GroupLocs, second
 		}
 		pLoc = primaryGroups.Locs[primaryGroups.Loc]
 		pChunk = trans.primaryChunks[pLoc.ChunkLoc]
+		// the rows of the primary group end where the next group of the chunk starts
+		_, pEnd = trans.getTagRange(pLoc.GroupLoc, pChunk)
 		pTime = pChunk.Time()[pLoc.RowLoc]
 		sTime = secondaryChunk.Time()[start]
 		if pTime < sTime {
-			primaryGroups.add(pChunk.Len())
+			primaryGroups.add(pEnd)
 			continue
 		} else if sTime < pTime {
 			start++
@@ -716,12 +719,12 @@ func (trans *BinOpTransform) computeMatchResult(primaryGroups *GroupLocs, second
 				rVal = 0
 			}
 		} else if !keep {
-			primaryGroups.add(pChunk.Len())
+			primaryGroups.add(pEnd)
 			start++
 			continue
 		}
 		trans.addOutputVal(pTime, rVal)
-		primaryGroups.add(pChunk.Len())
+		primaryGroups.add(pEnd)
 		start++
 	}
 	trans.tryAddOutputTags(preOutSize, trans.resultTagKeys, trans.resultTagValues)
@@ -787,6 +790,7 @@ func (trans *BinOpTransform) computeMatchResultLor(primaryGroups *GroupLocs, sec
 
 func (trans *BinOpTransform) computeMatchResultLand(primaryGroups *GroupLocs, secondaryChunk Chunk, secondaryGroupLoc int) error {
 	var pTime, sTime int64
+	var pEnd int
 	var pLoc *Loc
 	var pChunk Chunk
 	start, end := trans.getTagRange(secondaryGroupLoc, secondaryChunk)
@@ -798,15 +802,17 @@ func (trans *BinOpTransform) computeMatchResultLand(primaryGroups *GroupLocs, se
 		}
 		pLoc = primaryGroups.Locs[primaryGroups.Loc]
 		pChunk = trans.primaryChunks[pLoc.ChunkLoc]
+		// the rows of the primary group end where the next group of the chunk starts
+		_, pEnd = trans.getTagRange(pLoc.GroupLoc, pChunk)
 		pTime = pChunk.Time()[pLoc.RowLoc]
 		sTime = secondaryChunk.Time()[start]
 		if pTime < sTime {
-			primaryGroups.add(pChunk.Len())
+			primaryGroups.add(pEnd)
 		} else if sTime < pTime {
 			start++
 		} else {
 			trans.addOutputVal(sTime, secondaryChunk.Columns()[0].FloatValues()[start])
-			primaryGroups.add(pChunk.Len())
+			primaryGroups.add(pEnd)
 			start++
 		}
 	}
@@ -817,6 +823,7 @@ func (trans *BinOpTransform) computeMatchResultLand(primaryGroups *GroupLocs, se
 
 func (trans *BinOpTransform) computeMatchResultLunless(primaryGroups *GroupLocs, secondaryChunk Chunk, secondaryGroupLoc int) error {
 	var pTime, sTime int64
+	var pEnd int
 	var pLoc *Loc
 	var pChunk Chunk
 	start, end := trans.getTagRange(secondaryGroupLoc, secondaryChunk)
@@ -831,15 +838,17 @@ func (trans *BinOpTransform) computeMatchResultLunless(primaryGroups *GroupLocs,
 		}
 		pLoc = primaryGroups.Locs[primaryGroups.Loc]
 		pChunk = trans.primaryChunks[pLoc.ChunkLoc]
+		// the rows of the primary group end where the next group of the chunk starts
+		_, pEnd = trans.getTagRange(pLoc.GroupLoc, pChunk)
 		pTime = pChunk.Time()[pLoc.RowLoc]
 		sTime = secondaryChunk.Time()[start]
 		if pTime < sTime {
-			primaryGroups.add(pChunk.Len())
+			primaryGroups.add(pEnd)
 		} else if sTime < pTime {
 			trans.addOutputVal(sTime, secondaryChunk.Columns()[0].FloatValues()[start])
 			start++
 		} else {
-			primaryGroups.add(pChunk.Len())
+			primaryGroups.add(pEnd)
 			start++
 		}
 	}
